@@ -34,7 +34,7 @@ def cases(tier, seed):
             {
                 "net": n,
                 "cls": n["cls"],
-                "target": history.gen_target(rng),
+                "target": history.gen_target(rng, control=True),
                 "strategy": strat,
                 "max_drivers": rng.choice([None, None, 0, 1, 2, 3]),
                 "forbidden": rng.randrange(1 << 16) if rng.random() < 0.35 else None,
